@@ -82,17 +82,41 @@ def make_scenarios(ctx, count):
     return scns
 
 
+def make_session_scenarios(ctx, count):
+    """ordinary multi-mapper sessions; every Emit that comes from the (model's) active mapper is judged the same way"""
+    scns = []
+    for i in range(count):
+        rng = G.rng_for(ctx.seed, "C06s", i)
+        mtu = G.pick_mtu(rng)
+        cfg = G.rand_cfg(rng, mtu=mtu)
+        net = G.Net(rng, cfg["mac"])
+        frames = G.session_history(rng, net, mtu, rng.randint(30, 70), p_mut=0.0, p_noise=0.0, p_misc=0.05, max_emit=4)
+        s = H.Scenario("es%d" % i, meta=dict(frames=frames, own=cfg["mac"], mtu=mtu, rxseed=cfg["rxseed"]))
+        s.iface(0, **H.iface_kw(cfg)).glob(**G.global_kw(G.rand_global(rng, icon_size=100)))
+        s.add("OPT txcap=3000")
+        for fr in frames:
+            s.frame(0, fr)
+        scns.append(s)
+    return scns
+
+
 def monitor(scn, sobj, rep, sf, ck):
     frames = sobj.meta["frames"]
     own, mtu = sobj.meta["own"], sobj.meta["mtu"]
     mm = MapperModel()
     cap = G.cap_emit(mtu)
     judged = 0
+    eth_seen = set()      # Ethernet sources the active mapper has used in this session
     for idx, inp in enumerate(scn.inputs):
         if idx >= len(frames):
             break
         fr = frames[idx]
+        was = (mm.state, mm.mapper)
         mm.step(fr)
+        if (mm.state, mm.mapper) != was and not (was[0] == MapperModel.SOFT and mm.state == MapperModel.ACTIVE and was[1] == mm.mapper):
+            eth_seen = set()
+        if len(fr) >= 32 and fr[15] in (0, 1) and mm.mapper is not None and fr[24:30] == mm.mapper:
+            eth_seen.add(fr[6:12])
         if len(fr) < 34 or fr[15] != 0 or fr[17] != W.OP_EMIT:
             if inp.out is None:
                 break
@@ -183,9 +207,9 @@ def monitor(scn, sobj, rep, sf, ck):
             bad("ack-real-source-not-own", f.real_src.hex())
         if f.real_dst != mm.mapper:
             bad("ack-not-addressed-to-mapper", "ACK real destination %s, mapper %s" % (f.real_dst.hex(), mm.mapper.hex()))
-        if f.eth_dst not in (mm.mapper, mm.apparent, fr[6:12]):
-            bad("ack-ethernet-destination", "ACK Ethernet destination %s, mapper real %s apparent %s"
-                % (f.eth_dst.hex(), mm.mapper.hex(), mm.apparent.hex()))
+        if f.eth_dst not in (mm.mapper, mm.apparent, fr[6:12]) and f.eth_dst not in eth_seen:
+            bad("ack-ethernet-destination", "ACK Ethernet destination %s; mapper real %s, Ethernet sources it used in this session: %s"
+                % (f.eth_dst.hex(), mm.mapper.hex(), sorted(x.hex() for x in eth_seen)))
         rep.nontrivial(("emit", mtu, declared, fr[34:34 + 14 * min(declared, 4)]))
     if judged and len(rep.samples) < 2:
         rep.sample(dict(scenario=scn.sid, mtu=mtu, emits_judged=judged,
@@ -201,7 +225,7 @@ def run(ctx):
     rep.assumptions = ["real destination of Probe/Train is not judged here (C10's question)",
                        "zero-length sleeps may be omitted; unknown kinds and sequence number 0 are outside the domain"]
     binary, plain = H.build_many(ctx.work, [dict(flavour="asan"), dict(flavour="plain")])
-    scns = make_scenarios(ctx, ctx.n(420, 12000))
+    scns = make_scenarios(ctx, ctx.n(420, 12000)) + make_session_scenarios(ctx, ctx.n(300, 8000))
     run_monitored(ctx, binary, scns, monitor, tag="emit")
     # the same workload without red zones: an over-long descriptor walk is not cut short by the sanitizer,
     # so the number of frames it would really emit becomes observable
